@@ -5,8 +5,8 @@
 From GL Require Export VM.Opcode VM.Proto.
 
 (* compile.go: maxRegisters. NumUsedRegisters is a uint8 and register operands are 8/9-bit fields,
-   so 200 is inside what the VM can represent (frame_limit_fits in WfFacts.v). *)
-Definition frame_limit := 200.
+   so 250 (Lua 5.1 MAXSTACK; locals are limited to maxLocalVars = 200 separately) is inside what the VM can represent (frame_limit_fits in WfFacts.v). *)
+Definition frame_limit := 250.
 
 (* config.go: FieldsPerFlush, MaxArrayIndex. The raw word after a SETLIST with C = 0 is a block
    number: OP_SETLIST stores at (block-1)*FieldsPerFlush + i, which must address the array part.
